@@ -29,7 +29,7 @@ RULE = ('method sets of 1..3 (quick) / 1..4 (thorough) methods drawn from a pool
         'optional parameter and return types (incl. None and missing) and docstrings with and without params / raises sections (reST, and numpy style with description-less entries); the same method name may be exposed by different functions at different endpoints; names that differ only by separator or casing (user_get / user.get, getUsers / get_users); '
         'annotation combinations: errors (own list, ONE list object shared between methods, none), tags, summary, '
         'description, deprecated, servers (Server objects with unset optional fields, in a list or a tuple; tags also as Tag objects in a tuple; servers / tags of the specification object likewise), component_name_prefix - every docstring, tag, summary and description carries a marker token unique to its method, and the tokens found in an entry (with the components it reaches) must be the method\'s own; functions at module level or (20%) overrides in a view class of a documented base-class method; extractor stacks {pydantic, pydantic+docstring, docstring+pydantic, pydantic given model configuration arguments (alone, +docstring)}; endpoint '
-        'prefixes (OpenAPI); 1..3 repeated generations on the same specification object; OpenAPI 3.0.3, 3.1.0 and OpenRPC. Each document '
+        'prefixes (OpenAPI); 1..3 repeated generations on the same specification object (12%: the first one fails in a user-supplied exclusion predicate - that generation must raise, the following ones are judged); OpenAPI 3.0.3, 3.1.0 and OpenRPC. Each document '
         'is JSON-encoded and validated against the official meta-schema (tests). distinct = distinct case; non-trivial = at least two methods')
 EXHAUSTIVE = {'quick': False, 'thorough': False}
 TRUSTED_BASE = ['pydantic.model_json_schema and docstring_parser (the schema extractors): which components a method needs and which errors a '
@@ -171,11 +171,29 @@ def generate(seed, tier):
         cases.append({'kind': kind, 'methods': ms, 'shared': rnd.sample(['E1', 'E2', 'E3'], rnd.randint(1, 2)),
                       'stack': rnd.choice(['pyd', 'pyd+doc', 'doc+pyd', 'pydcfg', 'pydcfg+doc']), 'global_prefix': rnd.choice(['', '', 'G_', 'M', 'Get']),
                       'gens': rnd.choice([1, 2, 3]), 'view': rnd.random() < 0.2,
+                      'genfail': rnd.random() < 0.12,
                       'spec_servers': rnd.choice([None, None, 'list', 'tuple']), 'spec_tags': rnd.choice([None, None, 'list', 'tuple'])})
     return cases
 
 
-def stack_of(name):
+class NotWired(RuntimeError):
+    pass
+
+
+def stack_of(name, failing=None):
+    if failing is not None:
+        # a user-supplied exclusion predicate that raises on its first use (a DI container not wired yet) and works afterwards
+        def pred(pname, annotation, default):
+            if failing['armed']:
+                failing['armed'] = False
+                raise NotWired('container not wired')
+            return False
+        rest = [DocstringSchemaExtractor()] if name.endswith('+doc') else []
+        return [PydanticSchemaExtractor(exclude_param=pred)] + rest
+    return stack_of_plain(name)
+
+
+def stack_of_plain(name):
     # pydcfg: an extractor given model configuration arguments (they are applied to every model it builds)
     return {'pyd': [PydanticSchemaExtractor()], 'pyd+doc': [PydanticSchemaExtractor(), DocstringSchemaExtractor()],
             'doc+pyd': [DocstringSchemaExtractor(), PydanticSchemaExtractor()],
@@ -330,6 +348,8 @@ def observe(case):
         else:
             d.registry.view(view, prefix=m['name'].rsplit('.', 1)[0] if '.' in m['name'] else None)
     methods_map = {ep: list(d.registry.values()) for ep, d in regs.items()}
+    failing = {'armed': True} if (case.get('genfail') and case['stack'] in ('pyd', 'pyd+doc')) else None
+    the_stack = stack_of(case['stack'], failing)
     skw = {}
     if case.get('spec_servers'):
         sv = [mod.Server(url='http://spec.example/', **({'name': 'main'} if rpc else {}))]
@@ -338,18 +358,22 @@ def observe(case):
         tg = [oa.Tag(name='general')]
         skw['tags'] = tg if case['spec_tags'] == 'list' else tuple(tg)
     if rpc:
-        spec = orpc.OpenRPC(info=orpc.Info(version='1', title='t'), schema_extractor=stack_of(case['stack'])[0], **skw)
+        spec = orpc.OpenRPC(info=orpc.Info(version='1', title='t'), schema_extractor=the_stack[0], **skw)
     else:
-        spec = oa.OpenAPI(info=oa.Info(version='1', title='t'), schema_extractors=stack_of(case['stack']), openapi=case['kind'],
+        spec = oa.OpenAPI(info=oa.Info(version='1', title='t'), schema_extractors=the_stack, openapi=case['kind'],
                           error_http_status_map={2001: 422, 2003: 404}, **skw)
 
     def snapshot():
         return [[e.code for e in lst] for lst in user_lists]
     before = snapshot()
     gens, heaps = [], []
-    for _ in range(case['gens']):
+    for _ in range(case['gens'] + (1 if failing else 0)):
         try:
             doc = spec.schema(path='/api', methods_map=methods_map, **({} if rpc else {'component_name_prefix': case['global_prefix']}))
+        except NotWired:
+            # the user's own failure travels to the caller of schema(); that generation yields no document (and is not judged),
+            # the following ones must be complete
+            continue
         except Exception as e:
             gens.append({'keys': [], 'entries': [], 'names': [], 'params': [], 'tokens': [], 'components': [], 'refs': ['<generation raised %s>' % type(e).__name__], 'digest': 'x',
                          'json_ok': False, 'meta_ok': False})
